@@ -210,7 +210,7 @@ structure Case where
   postcrash : Option String := none
   okVals : Nat := 0            -- valuations the interpreter accepts
   oorVals : Nat := 0           -- valuations with an executed out-of-range index
-  alwaysOor : Option (Array Bool) := none   -- per node: multiplexer whose selector was out of range under every valuation so far
+  anyOor : Bool := false       -- some multiplexer saw an out-of-range selector under some simulated valuation
 
 def splitBar (ts : List String) : List (List String) :=
   ts.foldr (fun t acc => if t == "|" then [] :: acc else match acc with | a :: r => (t :: a) :: r | [] => [[t]]) [[]]
@@ -253,9 +253,10 @@ partial def loop (h : IO.FS.Stream) (d : D) (c : Case) : IO D := do
     match c.postcrash with
     | some msg =>
       -- (a constant index that is out of range makes postprocess() assert; that is a rejected design, not a property failure)
-      let constOor := (c.alwaysOor.getD #[]).any id
-      -- … and so does an index that is out of range whenever its statement executes (the optimiser specialises it to a constant)
-      if c.okVals > 0 && !constOor && c.oorVals == 0 then
+      -- postprocess() asserts when the optimiser meets a multiplexer whose (specialised) selector is a constant beyond its inputs:
+      -- a rejected design, not a property failure. Accepted whenever the design has a dynamic selection that is out of range for
+      -- at least one simulated valuation (executed or not); a design whose selections are all in range has no such excuse.
+      if c.okVals > 0 && !c.anyOor then
         -- a program of the class on which design.postprocess() throws: no postprocessed circuit to observe
         IO.println s!"PROPFAIL case={c.id} sig=postprocess-threw:{locOf msg} stage=post msg=[{msg}]"
         loop h { d with propfails := d.propfails + 1 } {}
@@ -276,8 +277,7 @@ partial def loop (h : IO.FS.Stream) (d : D) (c : Case) : IO D := do
         match ρ? with
         | none => loop h d c
         | some ρ =>
-          let fl := oorFlags ρ B.nodes
-          let c := { c with alwaysOor := some (match c.alwaysOor with | none => fl | some a => (a.zip fl).map fun (x, y) => x && y) }
+          let c := { c with anyOor := c.anyOor || (oorFlags ρ B.nodes).any id }
           let spec := run p ρ none
           let nTop := if pre == ["-"] then post.length else pre.length
           match spec with
@@ -291,7 +291,10 @@ partial def loop (h : IO.FS.Stream) (d : D) (c : Case) : IO D := do
             for (tag, impl) in [("pre", pre), ("post", post)] do
               if impl == ["-"] then continue
               if impl != specS.take nTop && !c.reportedP then
-                let sig := if B.clash then "elseif2-same-condition-port" else "other"
+                -- classification for the replay file: port clash of a two-scope ELSE IF / postprocess() changed a value the
+                -- un-postprocessed circuit had right / anything else
+                let sig := if tag == "post" && pre != ["-"] && pre == specS.take nTop then "postprocess-changed-value"
+                           else if B.clash then "elseif2-same-condition-port" else "other"
                 IO.println s!"PROPFAIL case={c.id} sig={sig} stage={tag} inputs=[{inS}] sequential=[{" ".intercalate specS}] impl=[{" ".intercalate impl}]"
                 d := { d with propfails := d.propfails + 1 }
                 c := { c with reportedP := true }
